@@ -54,12 +54,69 @@ def norm_text(node, limit=160):
     return t[:limit]
 
 
+def normalise(tree):
+    """Canonical form applied to every analysed module before any rule sees it, so that rules do not depend on a
+    maintainer's choice between equivalent spellings:
+
+    N1  `t = E` immediately followed by `return t`, where the local `t` occurs nowhere else in the function, becomes
+        `return E` (an "extract variable" refactoring of a return value is invisible to the rules).
+    """
+
+    def occurrences(fn):
+        cnt = {}
+        for n in ast.walk(fn):
+            if isinstance(n, ast.Name):
+                cnt[n.id] = cnt.get(n.id, 0) + 1
+            elif isinstance(n, (ast.Global, ast.Nonlocal)):
+                for x in n.names:
+                    cnt[x] = cnt.get(x, 0) + 10
+        return cnt
+
+    def fold(body, cnt):
+        out = []
+        i = 0
+        while i < len(body):
+            st = body[i]
+            nxt = body[i + 1] if i + 1 < len(body) else None
+            if (
+                isinstance(st, ast.Assign)
+                and len(st.targets) == 1
+                and isinstance(st.targets[0], ast.Name)
+                and isinstance(nxt, ast.Return)
+                and isinstance(nxt.value, ast.Name)
+                and nxt.value.id == st.targets[0].id
+                and cnt.get(st.targets[0].id, 0) == 2
+            ):
+                out.append(ast.copy_location(ast.Return(value=st.value), st))
+                i += 2
+                continue
+            out.append(st)
+            i += 1
+        return out
+
+    def visit(node, cnt):
+        if isinstance(node, (ast.FunctionDef, ast.AsyncFunctionDef)):
+            cnt = occurrences(node)
+        for f in ("body", "orelse", "finalbody"):
+            seq = getattr(node, f, None)
+            if isinstance(seq, list) and seq and isinstance(seq[0], ast.stmt) and cnt is not None:
+                setattr(node, f, fold(seq, cnt))
+        if isinstance(node, ast.Try) and cnt is not None:
+            for h in node.handlers:
+                h.body = fold(h.body, cnt)
+        for ch in ast.iter_child_nodes(node):
+            visit(ch, cnt)
+
+    visit(tree, None)
+    return tree
+
+
 class Module:
     def __init__(self, name, relpath, src):
         self.name = name
         self.path = relpath
         self.src = src
-        self.tree = ast.parse(src, filename=relpath)
+        self.tree = normalise(ast.parse(src, filename=relpath))
         self.is_pkg = relpath.endswith("__init__.py")
         self.imports = {}  # alias -> qualified dotted name
         self.star_imports = []  # modules imported with *
